@@ -230,6 +230,7 @@ package ge25519
 //@   ensures result ==> fval(r.y) == le(p[0:32]) % (1<<255)
 //@   ensures result ==> cong(VV(fval(r.y)) * pow(X(*r), 2), UU(fval(r.y)), P)
 //@   ensures result ==> (fe(r.x) == 0 || fe(r.x) % 2 != p[31] >> 7)
+//@   ensures !result ==> (red3(*r) && r.t == old(r.t))
 //@   lemma after call Neg#1 : fe(r.x) == (P - fe(t)) % P
 //@   assume-ensures result == decodable(bytesOf(p[0:32]))
 //@   assume-ensures result ==> P3(*r) == pneg(decpt(bytesOf(p[0:32])))
